@@ -51,6 +51,11 @@ class Prop(common.PropertyCheck):
             yield {'g': 'ellipse', 'cont': rng.choice(['array', 'sample']), 'N': rng.choice([1, 20, 60]), 'a': rng.uniform(0.3, 2.5), 'b': rng.uniform(0.3, 2.5),
                    'theta': rng.choice([0.0, 0.4, -1.1, rng.uniform(-4, 4)]), 'center': [rng.uniform(-0.5, 1.5), rng.uniform(-0.5, 1.5)],
                    'log': True, 'lograw': True, 'chform': rng.choice(['names', 'pos', 'mixed']), 'seed': rng.randrange(1 << 30)}
+        # long thin ellipses tilted by a very small angle (or by a multiple of pi plus a very small angle), events along the major axis
+        for _ in range(self.budget(60, 600)):
+            th = rng.choice([0.004, -0.003, 0.0007, 0.002, -0.0044, 0.01]) + rng.choice([0, 0, math.pi, 2 * math.pi, -math.pi])
+            yield {'g': 'ellipse', 'cont': 'array', 'N': 40, 'a': rng.choice([300., 450., 900.]), 'b': rng.choice([0.5, 1.0, 0.2]), 'theta': th,
+                   'center': [rng.uniform(400, 600), rng.uniform(400, 600)], 'log': False, 'thin': True, 'chform': 'pos', 'dtype': 'float', 'seed': rng.randrange(1 << 30)}
         for bad in ('ellipse1', 'ellipse3', 'startend_too_many'):
             yield {'g': 'bad', 'what': bad}
 
@@ -70,6 +75,12 @@ class Prop(common.PropertyCheck):
                 a[mk] = np.round(a[mk])
                 if case.get('dtype') == 'float_nan' and N:
                     a[r.rand(N, D) < 0.1] = np.nan
+                if case.get('thin') and N:
+                    # events on the major axis of the ellipse of this case (well inside it), a few off the axis
+                    t = np.linspace(-0.97, 0.97, N) * case['a']
+                    a[:, 0] = case['center'][0] + t * math.cos(case['theta'])
+                    a[:, 1] = case['center'][1] + t * math.sin(case['theta'])
+                    a[::7, 1] += 3 * case['b']
             return a, None
         import random
         spec = samples.spec_rich(random.Random(case['seed']), N=N, D=4, datatype='I' if case.get('dtype', 'int') == 'int' else 'F',
